@@ -33,7 +33,7 @@ def gen_table(rnd: random.Random):
     entries = []
     free = cycles
     for i in range(nm):
-        e = {"name": f"m{i}", "interval": rnd.choice([1, 1, 2, 3, 4]), "probability": rnd.choice([0.0, 0.5, 1.0, 1.0, 2.5, 7.0])}
+        e = {"name": f"m{i}", "interval": rnd.choice([1, 1, 2, 3, 4, 5, 6]), "probability": rnd.choice([0.0, 0.5, 1.0, 1.0, 2.5, 7.0])}
         if free > 0 and rnd.random() < 0.4:
             e["minimum_count"] = rnd.randint(1, min(2, free))
             free -= e["minimum_count"]
@@ -192,7 +192,8 @@ class C09(Campaign):
             nsteps = 2000 if not real else 300
         sc = build_scenario(rnd, cycles, entries, nsteps, real)
         if rnd.random() < 0.4:
-            sc["overcommit"] = {"minimum_count": cycles - sum(e.get("minimum_count", 0) for e in entries) + rnd.randint(1, 3)}
+            sc["overcommit"] = {"minimum_count": cycles - sum(e.get("minimum_count", 0) for e in entries) + rnd.randint(1, 3),
+                                "interval": rnd.choice([1, 1, 2, 3, 4, 5, 6])}
         return sc
 
     def sample_view(self, sc):
@@ -253,7 +254,7 @@ class C09(Campaign):
         res.count("fault.overcommit_attempt")
         try:
             mc.add_move(BareMove([True], []), criteria=BareCriteria([True], []), name="extra",
-                        minimum_count=sc["overcommit"]["minimum_count"])
+                        minimum_count=sc["overcommit"]["minimum_count"], interval=sc["overcommit"].get("interval", 1))
         except ValueError:
             after = {k: (v.interval, v.probability, v.minimum_count, id(v.move)) for k, v in mc.moves.items()}
             if after != before:
